@@ -276,6 +276,7 @@ def run(ctx):
                             ctx.ob(f"{name}:symmetry:{i}x{j}", "inconclusive", "unknown")
     bare_lhs(ctx)
     vectors(ctx)
+    foreign(ctx)
 
 
 REPLAY_LHS = r'''
@@ -330,23 +331,78 @@ def bare_lhs(ctx):
                     ctx.ob(f"{name}:path{i}", "inconclusive", "unknown")
 
 
+FOREIGN_SRC = r"""
+import sympy as sp
+from sympy.physics import units
+from sympy.physics.units import Dimension
+from symplyphysics import Quantity, assert_equal
+from symplyphysics.core.approx import assert_equal_vectors
+from symplyphysics.core.vectors.vectors import QuantityVector
+def foreign_cases():
+    # base dimensions outside the seven SI ones + angle (information; a user-defined one): the lifted 8-exponent vectors cannot represent
+    # them, so a finite list is executed concretely on equal magnitudes.  (label, left, right, equivalent?)
+    money = Dimension("money")
+    from sympy.physics.units.definitions.dimension_definitions import information as info
+    L, T = units.length, units.time
+    dims = [("1", Dimension(1), {}), ("L", L, {"L": 1}), ("1/T", 1 / T, {"T": -1}), ("info", info, {"i": 1}), ("info*L", info * L, {"i": 1, "L": 1}), ("info/T", info / T, {"i": 1, "T": -1}),
+            ("info**2", info**2, {"i": 2}), ("money", money, {"m": 1}), ("money*L", money * L, {"m": 1, "L": 1}), ("money/info", money / info, {"m": 1, "i": -1}), ("info*L/info", info * L / info, {"L": 1})]
+    out = []
+    for (na, da, ea) in dims:
+        for (nb, db, eb) in dims:
+            out.append((f"5 [{na}] vs 5 [{nb}]", Quantity(5, dimension=da), Quantity(5, dimension=db), ea == eb))
+    return out
+def foreign_bad():
+    bad = []
+    for label, l, r, same in foreign_cases():
+        for how in ("scalar", "vector"):
+            try:
+                if how == "scalar":
+                    assert_equal(l, r)
+                else:
+                    assert_equal_vectors(QuantityVector([l, l], dimension=l.dimension), QuantityVector([r, r], dimension=r.dimension))
+                got = True
+            except Exception as e:
+                got = False
+            if got != same:
+                bad.append(f"{how} {label}: " + ("accepted although the dimensions are inequivalent" if got else "refused although dimension and magnitude agree"))
+    return bad
+"""
+
+
+def foreign(ctx):
+    ns = {}
+    exec(FOREIGN_SRC, ns)
+    bad = ns["foreign_bad"]()
+    if bad:
+        ctx.violation("C08:foreign-base-dimension", "; ".join(bad[:4]) + f" ({len(bad)} cases)", FOREIGN_SRC + "\nimport sys\nb = foreign_bad()\nprint(b[:6])\nif b:\n    print('REPRODUCED'); sys.exit(1)\n")
+    else:
+        ctx.ob("equal magnitudes with base dimensions outside the SI seven (information, a user-defined one): accepted exactly for equivalent dimensions, scalars and vectors (121 pairs)", "discharged", nontrivial=False)
+
+
 REPLAY_VEC = r'''
 import sys
+from fractions import Fraction
 from sympy.physics import units
 from symplyphysics import Quantity
 from symplyphysics.core.approx import assert_equal_vectors
 from symplyphysics.core.vectors.vectors import QuantityVector
-nl, nr, oks = {nl!r}, {nr!r}, {oks!r}
+nl, nr, lvals, rvals = {nl!r}, {nr!r}, {lvals!r}, {rvals!r}
 L = units.length
-lv = QuantityVector([Quantity(1.0 * (i + 1), dimension=L) for i in range(nl)], dimension=L)
-rv = QuantityVector([Quantity(1.0 * (i + 1) * (1.0 if (i >= len(oks) or oks[i]) else 1.5), dimension=L) for i in range(nr)], dimension=L)
+lf = [float(Fraction(v)) for v in lvals]; rf = [float(Fraction(v)) for v in rvals]
+lv = QuantityVector([Quantity(v, dimension=L) for v in lf], dimension=L)
+rv = QuantityVector([Quantity(v, dimension=L) for v in rf], dimension=L)
 try:
     assert_equal_vectors(lv, rv); got = "pass"
 except AssertionError: got = "fail"
 except ValueError as e: got = "valueerror"
-want = "valueerror" if nl != nr else ("pass" if all(oks) else "fail")
-print(nl, nr, oks, "->", got, "want", want)
-if got != want:
+# componentwise verdict at the default relative tolerance 0.001, with a margin around the boundary
+def comp(a, b):
+    d, m = abs(a - b), 1e-3 * max(abs(a), abs(b))
+    return True if d <= m * (1 - 1e-6) else False if d > m * (1 + 1e-6) else None
+oks = [comp(a, b) for a, b in zip(lf, rf)]
+want = "valueerror" if nl != nr else (None if None in oks and False not in oks else "pass" if all(oks) else "fail")
+print(lf, rf, oks, "->", got, "want", want)
+if want is not None and got != want:
     print("REPRODUCED"); sys.exit(1)
 '''
 
@@ -394,7 +450,7 @@ def vectors(ctx):
                         ctx.ob(f"{name}:path{i}", "discharged", nontrivial=False)
                     else:
                         ctx.violation(f"C08:vectors:length-mismatch", f"{name}: {p.describe()} for vectors of different lengths",
-                                      REPLAY_VEC.format(nl=nl, nr=nr, oks=[True] * min(nl, nr)))
+                                      REPLAY_VEC.format(nl=nl, nr=nr, lvals=[str(i + 1) for i in range(nl)], rvals=[str(i + 1) for i in range(nr)]))
                     continue
                 want = allok if p.kind == "ret" else z3.Not(allstrict)
                 if p.kind == "exc" and not isinstance(p.value, AssertionError):
@@ -404,6 +460,9 @@ def vectors(ctx):
                     ctx.ob(f"{name}:path{i}", "discharged")
                 elif r == "sat":
                     oks = [bool(z3.is_true(m.eval(c, model_completion=True))) for c in comp_ok]
-                    ctx.violation("C08:vectors:componentwise", f"{name}: {p.describe()} but component verdicts are {oks}", REPLAY_VEC.format(nl=nl, nr=nr, oks=oks))
+                    lvals = [str(model_value(m, ses.z(a))) for a in ls]
+                    rvals = [str(model_value(m, ses.z(b))) for b in rs]
+                    ctx.violation("C08:vectors:componentwise", f"{name}: {p.describe()} but component verdicts are {oks} at {lvals} vs {rvals}",
+                                  REPLAY_VEC.format(nl=nl, nr=nr, lvals=lvals, rvals=rvals))
                 else:
                     ctx.ob(f"{name}:path{i}", "inconclusive", "unknown")
